@@ -485,10 +485,9 @@ impl MachineState {
                 let n = match n {
                     Number::Fixnum(n) => n.get_num() as usize,
                     Number::Integer(n) if usize::try_from(&*n).is_ok() => (&*n).try_into().unwrap(),
-                    _ => {
-                        self.fail = true;
-                        return Ok(());
-                    }
+                    // an index beyond the machine word selects no argument, but
+                    // the term is still subject to the checks below.
+                    _ => usize::MAX,
                 };
 
                 let term = self.deref(self.registers[2]);
